@@ -8,4 +8,5 @@ CONSTANTS
   Short = TRUE
   Dev = {}
 INVARIANTS SameAsFull EndsInBoundedCalls EOFAbsorbing
+PROPERTY CancelStops
 CHECK_DEADLOCK FALSE
